@@ -333,6 +333,31 @@ theorem arrivals_held (w : World) (u : Nat) (h : (w.net.get u).rx.isEmpty = fals
       ((userIO w u).users.get u).cmdInBuf = true := by
   simp [userIO, heldBack, h, hroom, hc]
 
+/-- **a held-back read does not make backend() wait**: the user gets CMD_IN_BUF, so `has_pending_commands` is true at the
+    top of the next iteration and the poll timeout is zero - the data left in the socket is read as soon as a command
+    has been executed and the buffer has room again -/
+theorem held_not_idle (w : World) (u : Nat) (hi : w.interactive u = true) (hh : heldBack w u = true) :
+    hasPending (userIO w u) = true ∧ pollBlocks (hasPending (userIO w u)) = false := by
+  have hp : hasPending (userIO w u) = true := by
+    unfold hasPending userIO
+    simp only [hh, if_true, List.any_eq_true]
+    refine ⟨some u, by simpa [World.interactive] using hi, ?_⟩
+    simp only [get_upd, if_true]
+  exact ⟨hp, by rw [hp]; rfl⟩
+
+/-- a held-back read touches neither the table nor the sockets nor the cursor nor anybody's turn or buffer -/
+theorem held_keeps_table (w : World) (u : Nat) (hh : heldBack w u = true) :
+    (userIO w u).slots = w.slots ∧ (userIO w u).net = w.net ∧ (userIO w u).cursor = w.cursor ∧
+      (∀ x, ((userIO w u).users.get x).buf = (w.users.get x).buf ∧ ((userIO w u).users.get x).turn = (w.users.get x).turn) := by
+  unfold userIO
+  simp only [hh, if_true]
+  refine ⟨by trivial, by trivial, by trivial, ?_⟩
+  intro x
+  simp only [get_upd]
+  split
+  · rename_i hx; subst hx; exact ⟨rfl, rfl⟩
+  · exact ⟨rfl, rfl⟩
+
 /-- witness: a user with MAX_TEXT buffered bytes (any length from 1664 on, with the constants of the source) receives one
     more byte -/
 theorem arrivals_append_Full_false : ¬ arrivals_append_Full := by
